@@ -32,6 +32,14 @@ def soup_cases(ctx, n, prefix="s"):
                                                                {"layout": ctx.rng.choice(soup.LAYOUTS)},
                                                                {"parse_qq": True, "clean_qq": True, "qq_depth": 2},
                                                                {"ocr_scrub": True, "default_ns": "s", "default_ew": "e"}])}})
+        elif r < 0.87:
+            comp = lambda: ctx.rng.choice([154, 97, 14, 0, "154n", "97w", "14", "154", "", None, "XXXz", "___z", "l5S", "TI"])  # noqa
+            cfg = soup.rand_config(ctx.rng, for_tract=True)
+            extra = ctx.rng.choice([None, None, "ocr_scrub", "s,e", "ocr_scrub,s"])
+            cases.append({"id": "%s%d" % (prefix, i), "kind": "plss_entry", "origin": "soup", "abs": {},
+                          "args": {"text": text, "config": ",".join(x for x in (cfg, extra) if x) or None, "entry": "tract_build",
+                                   "components": [comp() for _ in range(ctx.rng.randint(0, 3))],
+                                   "components2": [comp(), comp(), comp()]}})
         else:
             cases.append({"id": "%s%d" % (prefix, i), "kind": "plss_entry", "origin": "soup", "abs": {},
                           "args": {"text": text, "config": soup.rand_config(ctx.rng, for_tract=True),
@@ -75,7 +83,7 @@ def run(ctx):
                 "through keyword / config / parse argument), (b) core-alphabet sequences of 4..5 tokens under sec_within / "
                 "segment / colon modes, (c) seeded soup of PLSS vocabulary, truncated and shuffled sample descriptions, "
                 "unicode, empty text x random valid configurations x entry points PLSSDesc(), PLSSDesc.parse(), Tract(), "
-                "Tract.parse(), (d) %d invalid-argument calls; non-trivial = distinct (text, configuration, entry point)"
+                "Tract.parse(), Tract.from_twprgesec() / set_twprgesec() with components of every documented kind, (d) %d invalid-argument calls; non-trivial = distinct (text, configuration, entry point)"
                 % (4 if thorough else 3, len(ARG_KINDS)))
     ctx.assumptions += ["inputs that trigger the unclaimed C16 (a Twp/Rge repeated > 3 times, runs of '. ') are not generated",
                         "ConfigError is accepted where TypeError is documented (it subclasses TypeError)"]
